@@ -57,6 +57,19 @@ theorem startRebalance_of_nonempty (s : Group) (t now : Nat) (h : s.members ≠ 
   have : s.members.isEmpty = false := by cases hm : s.members <;> simp_all
   simp [this]
 
+/-- `startRebalance` of a non-empty group: `ensureLeader` of an intermediate group, then the join markers reset -/
+theorem startRebalance_eq (s : Group) (t now : Nat) (h : s.members ≠ []) :
+    ∃ x : Group, x.members = s.members ∧
+      x.rebTimeout = (if t > 0 then t else if s.rebTimeout = 0 then defaultRebalance else s.rebTimeout) ∧
+      s.startRebalance t now = { x.ensureLeader with members := resetJoins x.ensureLeader.members } := by
+  unfold startRebalance
+  have : s.members.isEmpty = false := by cases hm : s.members <;> simp_all
+  simp only [this, Bool.false_eq_true, if_false]
+  exact ⟨{ s with rebTimeout := (if t > 0 then t else if s.rebTimeout = 0 then defaultRebalance else s.rebTimeout),
+                  gen := s.gen + 1, phase := .preparing, asg := [],
+                  deadline := now + (if t > 0 then t else if s.rebTimeout = 0 then defaultRebalance else s.rebTimeout) },
+    rfl, rfl, rfl⟩
+
 theorem startRebalance_gen_ge (s : Group) (t now : Nat) : s.gen ≤ (s.startRebalance t now).gen := by
   unfold startRebalance; split
   · exact Nat.le_refl _
